@@ -45,8 +45,8 @@ PROPFIND_ALL = ('<?xml version="1.0"?><D:propfind xmlns:D="DAV:"><D:prop><D:gete
 
 def pre_build():
     import skeleton
-    sk, do, notes = skeleton.generate("/repo", with_do=True)
-    calls, imports = skeleton.xml_parser_calls("/repo")
+    sk, do, notes = skeleton.generate(os.environ.get("VERIF_REPO", "/repo"), with_do=True)
+    calls, imports = skeleton.xml_parser_calls(os.environ.get("VERIF_REPO", "/repo"))
     skeleton.write_lean(sk, os.path.join(VERIF, "lean", "Generated", "Skeleton.lean"), do, calls, imports)
 
 
@@ -346,6 +346,38 @@ def overlapping_requests(ctx, rec):
                         ctx.violation("lock discipline (%s, its own thread): %s" % (who, c), case)
 
 
+def hook_leftover_level(ctx):
+    """a hook that leaves a background job behind: the hook's process group is ended before the exclusive window is given up, whatever
+    way the hook returns - nothing the hook started looks at the storage once the lock is released"""
+    import time
+    hooklog = os.path.join(tempfile.gettempdir(), "rverif-hook-late-%d.log" % os.getpid())
+    hook = "%s %s/harness/hookprobe.py %%(cwd)s %%(user)s %s linger" % (sys.executable, VERIF, hooklog)
+    kinds = dict(scenarios.kinds())
+    try:
+        for name in ("put_new", "mkcalendar", "delete_item", "first_login"):
+            if name not in kinds:
+                continue
+            method, path, body, env, login, calls, expect = kinds[name]
+            if os.path.exists(hooklog):
+                os.unlink(hooklog)
+            with App(dict({"storage": {"hook": hook}}, rights=permissive_rights(), auth={"type": "none"})) as app:
+                scenarios.build_store(app, 0)
+                if os.path.exists(hooklog):
+                    os.unlink(hooklog)
+                st, _, _ = app.request(method, path, body, login=login, **env)
+                time.sleep(0.9)
+                lines = open(hooklog).read().split("\n")[:-1] if os.path.exists(hooklog) else []
+            case = {"request": name, "status": st, "hook": "records the lock state, forks a job that looks again 0.4 s later", "hook_log": lines}
+            ctx.case("hook-leftover:%s" % name, sample=case, key=["leftover", name], nontrivial=bool(lines))
+            late = [x for x in lines if x.startswith("late:")]
+            if late:
+                ctx.violation("a job left behind by the storage hook was still running after the exclusive window of %s ended and looked at the "
+                              "storage without the lock: %s" % (name, late), case)
+    finally:
+        if os.path.exists(hooklog):
+            os.unlink(hooklog)
+
+
 def run(ctx):
     ctx.extra["rule"] = ("21 modifying + 35 reading / failing request types (all methods, error exits, REPORT variants incl. early unlock, "
                          "sync under the shared lock, emptied caches, first login, anonymous) x configurations {default, hook, cache sub-folders, "
@@ -380,6 +412,7 @@ def run(ctx):
             if name in cf_kinds:
                 run_kind(ctx, rec, name, kind, cf[0], cf[1], hooklog)
         overlapping_requests(ctx, rec)
+        hook_leftover_level(ctx)
     finally:
         rec.close()
         if os.path.exists(hooklog):
